@@ -8,6 +8,7 @@ import (
 	"math/big"
 	"sync"
 
+	"github.com/ethereum/go-ethereum/common"
 	"github.com/ethereum/go-ethereum/common/hexutil"
 
 	evmtypes "github.com/EscanBE/evermint/v12/x/evm/types"
@@ -97,6 +98,7 @@ func Run(run *vh.Run) {
 	floor("malformed call data that must fail", sum("malformed:", "short", "empty", "sel-only", "wrong-selector"), 35, 1200)
 	floor("interleaved bank sends and value transfers", sum("interleaved_", "msgsend", "value-transfer"), 55, 1900)
 	floor("burns while the account the precompile burns through holds the token", run.Get("burns_while_transit_account_holds_the_token"), 2, 40)
+	floor("totalSupply() read after a burn that was rolled back in the same message", run.Get("peeks_after_reverted_burn"), 6, 200)
 	floor("two-call transactions", run.Get("sequence_txs"), 130, 4500)
 	run.Floor("distinct (call kind x amount class x holder kind)", int64(run.NontrivialN()), int64(run.N(150, 300)))
 	run.Floor("distinct routes x modes", int64(run.DistinctN("route_x_mode")), int64(run.N(45, 100)))
@@ -134,8 +136,54 @@ func runWorld(run *vh.Run, label string, wi, nOps int) {
 			return
 		}
 		w.ethCallViews()
+		if w.block%12 == 5 {
+			w.peekAfterRevertedBurn((w.block / 12) % 2)
+		}
 	}
 	run.Max("blocks_per_world_max", int64(w.block))
+}
+
+// peekAfterRevertedBurn: one transaction in a block of its own calls the peeker contract (peekerCode). Nothing of the
+// inner frame may survive: the bank supply is what it was, and the totalSupply() the OUTER frame reads afterwards,
+// in the same message, is that supply.
+func (w *world) peekAfterRevertedBurn(tok int) {
+	run, c := w.run, w.c
+	supply := func() *big.Int { return c.App.BankKeeper.GetSupply(c.QueryCtx(), denoms[tok]).Amount.BigInt() }
+	held := c.App.BankKeeper.GetBalance(c.QueryCtx(), w.peeker.Addr.Bytes(), denoms[tok]).Amount.BigInt()
+	if held.Sign() == 0 {
+		return
+	}
+	amt := new(big.Int).Add(new(big.Int).Mod(w.r.BigBits(40), held), big.NewInt(1))
+	if amt.Cmp(held) > 0 {
+		amt.Set(held)
+	}
+	sender := w.byName("eoa0")
+	before := supply()
+	data := append(append([]byte{}, w.tok[tok].Bytes()...), common.LeftPadBytes(amt.Bytes(), 32)...)
+	to := w.peeker.Addr
+	bz, _ := c.EthTx(sender.Acct, vh.LegacyTx(c.Nonce(sender.Addr), &to, nil, 1_500_000, new(big.Int).Mul(c.BaseFee(), big.NewInt(2)), data))
+	br := c.NextBlock([][]byte{bz}, nil)
+	w.block++
+	if br.Err != nil || len(br.TxResults()) != 1 {
+		return
+	}
+	resp := vh.EthResponse(br.TxResults()[0])
+	if resp == nil || resp.VmError != "" || len(resp.Ret) != 32 {
+		run.Count("peeks_after_reverted_burn_not_executed", 1)
+		return
+	}
+	run.Eval(1)
+	run.Count("peeks_after_reverted_burn", 1)
+	run.Nontrivial("peek-after-reverted-burn|" + denoms[tok])
+	after, got := supply(), new(big.Int).SetBytes(resp.Ret)
+	wit := map[string]any{"world": w.label, "height": br.Height, "token": denoms[tok], "burn_amount_in_the_reverted_frame": amt.String(),
+		"bank_supply_before": before.String(), "bank_supply_after": after.String(), "totalSupply_read_by_the_outer_frame": got.String(), "peeker": w.peeker.Addr.Hex()}
+	if before.Cmp(after) != 0 {
+		run.Violation("reverted-burn-changed-the-supply", w.label, wit)
+	}
+	if got.Cmp(after) != 0 {
+		run.Violation("view-differs-from-bank:totalSupply:after-reverted-burn-in-same-message", w.label, wit)
+	}
 }
 
 // ethCallViews compares, on the committed state, what the EthCall gRPC query answers for
